@@ -315,6 +315,13 @@ class Tr:
             if op == "&":
                 return self.addr_of(e["inner"][0], env, e)
             fail(e, "unsupported unary operator '%s' in rvalue position" % op)
+        if k == "ConditionalOperator":
+            # c ? a : b  -- both arms already converted to the common type by clang
+            c = self.cond(e["inner"][0], env)
+            a, b, rt = self.val(e["inner"][1], env), self.val(e["inner"][2], env), ctype(e)
+            if not (a.ct.kind == b.ct.kind == rt.kind and a.ct.bits == b.ct.bits == rt.bits and rt.kind in "us"):
+                fail(e, "conditional operator arms of different or non-integer types")
+            return V("(if %s then %s else %s)" % (c, a.term, b.term), rt, nonneg=(a.nonneg and b.nonneg))
         if k == "CallExpr":
             callee = self.callee_name(e)
             if callee == "__builtin_bswap64":
